@@ -1,0 +1,165 @@
+//go:build verif
+
+package storage
+
+import (
+	"bytes"
+	"sort"
+
+	"github.com/MixinNetwork/mixin/common"
+	"github.com/MixinNetwork/mixin/crypto"
+	"github.com/dgraph-io/badger/v4"
+)
+
+// Verification hooks (build tag verif) for the /verif C03/C04 harness: a
+// sorted dump of the key families that hold slot locks, transaction bodies,
+// finalization records and output key bindings, read in one read transaction,
+// and the minimal fixture (asset info, round 0 of some nodes) WriteSnapshot
+// needs.  Nothing here is reachable from a normal build.
+
+type VerifC03UTXO struct {
+	Hash  crypto.Hash
+	Index uint
+	Lock  crypto.Hash
+}
+
+type VerifC03Pair struct {
+	Key crypto.Hash
+	Tx  crypto.Hash
+}
+
+type VerifC03Mint struct {
+	Batch  uint64
+	Tx     crypto.Hash
+	Amount common.Integer
+}
+
+type VerifC03State struct {
+	UTXO    []VerifC03UTXO
+	Deposit []VerifC03Pair // DEPOSIT/<unique key> -> holder
+	Mint    []VerifC03Mint
+	Body    []crypto.Hash  // TRANSACTION/<hash> present
+	Final   []crypto.Hash  // FINALIZATION/<hash> present
+	Ghost   []VerifC03Pair // GHOST/<key> -> transaction
+}
+
+func verifC03Scan(txn *badger.Txn, prefix string, fn func(key, val []byte) error) error {
+	opts := badger.DefaultIteratorOptions
+	opts.Prefix = []byte(prefix)
+	it := txn.NewIterator(opts)
+	defer it.Close()
+	for it.Seek(opts.Prefix); it.ValidForPrefix(opts.Prefix); it.Next() {
+		item := it.Item()
+		key := item.KeyCopy(nil)
+		val, err := item.ValueCopy(nil)
+		if err != nil {
+			return err
+		}
+		err = fn(key[len(prefix):], val)
+		if err != nil {
+			return err
+		}
+	}
+	return nil
+}
+
+func verifC03Hash(b []byte) crypto.Hash {
+	var h crypto.Hash
+	if len(b) != len(h) {
+		panic(len(b))
+	}
+	copy(h[:], b)
+	return h
+}
+
+func (s *BadgerStore) VerifC03Dump() (*VerifC03State, error) {
+	s.mutex.RLock()
+	defer s.mutex.RUnlock()
+
+	txn := s.snapshotsDB.NewTransaction(false)
+	defer txn.Discard()
+
+	st := &VerifC03State{}
+	err := verifC03Scan(txn, graphPrefixUTXO, func(key, val []byte) error {
+		out, err := common.UnmarshalUTXO(val)
+		if err != nil {
+			return err
+		}
+		if !bytes.Equal(append([]byte(graphPrefixUTXO), key...), graphUtxoKey(out.Hash, out.Index)) {
+			panic("utxo key does not match its record")
+		}
+		st.UTXO = append(st.UTXO, VerifC03UTXO{Hash: out.Hash, Index: out.Index, Lock: out.LockHash})
+		return nil
+	})
+	if err != nil {
+		return nil, err
+	}
+	err = verifC03Scan(txn, graphPrefixDeposit, func(key, val []byte) error {
+		st.Deposit = append(st.Deposit, VerifC03Pair{Key: verifC03Hash(key), Tx: verifC03Hash(val)})
+		return nil
+	})
+	if err != nil {
+		return nil, err
+	}
+	err = verifC03Scan(txn, graphPrefixMint, func(key, val []byte) error {
+		d, err := common.UnmarshalMintDistribution(val)
+		if err != nil {
+			return err
+		}
+		if d.Batch != graphMintBatch(append([]byte(graphPrefixMint), key...)) {
+			panic("mint key does not match its record")
+		}
+		st.Mint = append(st.Mint, VerifC03Mint{Batch: d.Batch, Tx: d.Transaction, Amount: d.Amount})
+		return nil
+	})
+	if err != nil {
+		return nil, err
+	}
+	err = verifC03Scan(txn, graphPrefixTransaction, func(key, val []byte) error {
+		st.Body = append(st.Body, verifC03Hash(key))
+		return nil
+	})
+	if err != nil {
+		return nil, err
+	}
+	err = verifC03Scan(txn, graphPrefixFinalization, func(key, val []byte) error {
+		st.Final = append(st.Final, verifC03Hash(key))
+		return nil
+	})
+	if err != nil {
+		return nil, err
+	}
+	err = verifC03Scan(txn, graphPrefixGhost, func(key, val []byte) error {
+		st.Ghost = append(st.Ghost, VerifC03Pair{Key: verifC03Hash(key), Tx: verifC03Hash(val)})
+		return nil
+	})
+	if err != nil {
+		return nil, err
+	}
+	sort.Slice(st.UTXO, func(i, j int) bool {
+		c := bytes.Compare(st.UTXO[i].Hash[:], st.UTXO[j].Hash[:])
+		return c < 0 || c == 0 && st.UTXO[i].Index < st.UTXO[j].Index
+	})
+	return st, nil
+}
+
+// VerifC03Setup writes the XIN asset info and round 0 of each given node, the
+// records WriteSnapshot expects to exist before a snapshot of that node.
+func (s *BadgerStore) VerifC03Setup(nodes []crypto.Hash) error {
+	s.mutex.Lock()
+	defer s.mutex.Unlock()
+
+	return s.snapshotsDB.Update(func(txn *badger.Txn) error {
+		err := writeAssetInfo(txn, common.XINAssetId, common.XINAsset)
+		if err != nil {
+			return err
+		}
+		for _, id := range nodes {
+			err := writeRound(txn, id, &common.Round{Hash: id, NodeId: id, Number: 0, References: &common.RoundLink{}})
+			if err != nil {
+				return err
+			}
+		}
+		return nil
+	})
+}
